@@ -9,21 +9,33 @@ stability on mutated files."""
 import json, os, re
 
 ID = 'C05'
-GENERATORS = ['gen_codepage', 'gen_formats']
+GENERATORS = ['gen_codepage', 'gen_formats', 'gen_xbin', 'gen_sauce']   # gen_xbin: C06's codec constants; gen_sauce: C11's record layout (extension)
 COQ_TARGETS = ['Props/C05.vo', 'Run/RunC05.vo']
 PROPS_MODULE = 'Props.C05'
 THEOREMS = ['bin_roundtrip', 'bin_load_total', 'bin_resave', 'adf_roundtrip', 'adf_resave', 'adf_palette_roundtrip',
             'xb_roundtrip_one_font', 'xb_roundtrip_two_fonts', 'xb_resave', 'idf_roundtrip', 'idf_resave',
             'tnd_roundtrip', 'tnd_resave', 'palette63_roundtrip', 'font_block_roundtrip', 'layer_get_after_set',
             'known_1_witness', 'known_1_always_refused', 'known_2_witness',
-            'tnd_fixed_loader_agrees', 'xb_fixed_loader_accepts', 'xb_fixed_loader_accepted']
+            'tnd_fixed_loader_agrees', 'xb_fixed_loader_accepts', 'xb_fixed_loader_accepted',
+            # extension: XBin whole files with compressed data, re-save of all accepted XBin files, files with SAUCE bytes
+            'xb_writer_uncompressed', 'xb_data_sections_load_alike', 'xb_loader_reads_data_section', 'xb_writer_places_data_section',
+            'xb_compressed_file_loads_as_plain', 'xb_compressed_file_exists_iff',
+            'xb_roundtrip_compressed_one_font', 'xb_roundtrip_compressed_two_fonts',
+            'xb_compression_transparent_one_font', 'xb_compression_transparent_two_fonts', 'xb_roundtrip_any_page', 'xb_roundtrip_any_two_pages',
+            'xb_compressed_file_spec_conformant',
+            'xb_resave_any', 'xb_resave_512', 'known_2_exact', 'known_2_refusal', 'known_2_witness_both_writers',
+            'bin_file_roundtrip', 'tnd_file_roundtrip', 'xb_file_roundtrip_one_font', 'xb_file_roundtrip_two_fonts', 'adf_file_roundtrip', 'idf_file_roundtrip', 'tnd_file_resave',
+            'idf_wide_contains_idf', 'idf_roundtrip_any_width', 'idf_resave_any_width', 'known_1_exact']
 SWEEP_LEMMAS = ['C05BinProofs.from_u8_vis_sweep (256 bytes x 3 modes: a decoded attribute is visible and on font page 0)',
                 'C05AdfProofs.six_bit_sweep / expand6_idem_sweep (64 six-bit values, 256 byte values of the u8 expression r << 2 | r >> 4)',
                 'C05AdfProofs.ega_offsets_sweep (the generated EGA_COLOR_OFFSETS: 16 distinct indices below 64; EGA_PALETTE has 64 entries)',
                 'C05XBinProofs.xb_two_sweep (3 modes x 8 fg x 16 bg x blink x 2 pages: attribute bit 3 as font page in 512-character mode)',
                 'C05XBinProofs.xb_flags_decode (the generated XBin flag bits are decoded independently: 16 combinations)',
                 'C05XBinProofs.default_font_sweep (the generated default font: 256 glyphs of 16 bytes)',
-                'C18 AttrProofs.dec_enc_sweep / enc_dec_sweep / from_u8_shape_sweep (attribute byte codec, reused)']
+                'C18 AttrProofs.dec_enc_sweep / enc_dec_sweep / from_u8_shape_sweep (attribute byte codec, reused)',
+                'C05XBinCProofs.xb_flagsc_decode (the five generated XBin flag bits incl. FLAG_COMPRESS: 32 combinations)',
+                'C05XBinResaveProofs.xb_dec2_sweep (256 attribute bytes x 3 modes: what decode_char stores in 512-character mode is visible, expressible, fg < 8, not bold, page 0 or 1)',
+                'C06 XBinProofs.hdr_sweep / header_sweep / enc_mask_sweep (run header fields, reused through impl_decoder_agrees)']
 
 FMTS = ['bin', 'adf', 'xb', 'idf', 'tnd']
 FNO = {f: i for i, f in enumerate(FMTS)}
@@ -192,6 +204,7 @@ def save_opts(rng, fmt):
     """(compress, save_sauce) as the format needs: BIN and Tundra carry their width in the SAUCE record"""
     if fmt in ('bin', 'tnd'): return 0, 1
     if fmt == 'idf': return rng.randrange(2), rng.randrange(2)
+    if fmt == 'xb': return rng.randrange(2), rng.randrange(2)     # both data layouts (extension)
     return 0, rng.randrange(2)
 
 # --------------------------------------------------------------------------- parsing harness / model output
@@ -358,29 +371,50 @@ def correspondence(ctx):
             data, tail = split_sauce(b) if c['sauce'] else (b, None)
             d2 = mutate(rng, data, header_len(fmt, data))
             if len(d2) > 60000: continue
-            if fmt == 'xb' and len(d2) > 10 and d2[10] & 4: continue      # compressed data layout: property C06, not modelled here
             mcases.append({'kind': 'resave', 'fmt': fmt, 'data': d2, 'tail': tail, 'pic': c['pic'], 'comp': c['comp'], 'sauce': c['sauce']})
+    mcases += xb512_cases(rng, by_fmt['xb'], ctx.n(10, 45))
+    mcases += [{'kind': 'resave', 'fmt': 'idf', 'data': d, 'tail': None, 'pic': None, 'comp': rng.randrange(2), 'sauce': 0, 'directed': 'idf wide'}
+               for d in idf_wide_files(rng, ctx.n(5, 24))]
     mimpl = ctx.impl(['c5resave %s %d %d %s' % (c['fmt'], c['comp'], c['sauce'], hexs(c['data'] + (c['tail'] or []))) for c in mcases], per_case_timeout=30)
     for c in mcases:
         s = sauce_of(c['fmt'], c['pic']) if c['tail'] else 'None'
         exprs.append('run_resave %d %s %s [%s] (%s)' % (FNO[c['fmt']], 'true' if c['comp'] else 'false', 'true' if c['sauce'] else 'false',
                                                        '; '.join(map(str, c['data'])), s))
-    weights = [c['pic'].w * c['pic'].h + 2000 for c in cases] + [len(c['data']) + 4000 for c in mcases]
+    # third wave (extension): whole files WITH their SAUCE bytes - Buffer::to_bytes(.., save_sauce) byte for byte (the date bytes are
+    # taken from the real output) and Buffer::from_bytes on them, through Model/C05Files.v (C05 data + C11 record / split)
+    fcases = []; fnorm = []
+    nfile = ctx.n(6, 36); per_fmt = {}
+    for c, r in zip(cases, impl):
+        fk = (c['fmt'], c['comp'])                                             # XBin: both data layouts
+        if not c['sauce'] or per_fmt.get(fk, 0) >= (nfile if c['fmt'] not in ('xb', 'idf') else (nfile + 1) // 2): continue
+        if not (r and r[0] == 'ok' and r[1][0] == 1) or c['pic'].w * c['pic'].h > 1000 or c['pic'].w > 160: continue
+        n = r[1][1]; b = r[1][2:2 + n]
+        data, tail = split_sauce(b)
+        if tail is None: continue
+        per_fmt[fk] = per_fmt.get(fk, 0) + 1
+        name = 'verif font 0' if (c['pic'].fonts and 0 in c['pic'].fonts) else 'Codepage 437 English'
+        fcases.append({'kind': 'file', 'fmt': c['fmt'], 'pic': c['pic'], 'comp': c['comp'], 'sauce': 1})
+        fnorm.append(norm_impl_file(r))
+        exprs.append('run_file %d %s %s [%s] [%s]' % (FNO[c['fmt']], 'true' if c['comp'] else 'false', c['pic'].coq(),
+                                                      '; '.join(str(ord(ch)) for ch in name), '; '.join(map(str, tail[83:91]))))
+    weights = [c['pic'].w * c['pic'].h + 2000 for c in cases] + [len(c['data']) + 4000 for c in mcases] + [2 * c['pic'].w * c['pic'].h + 6000 for c in fcases]
     model = model_eval(ctx, IMPORTS, ['digest (%s)' % e for e in exprs], weights)
     dis = []; dist = {}; nontrivial = set(); outcomes = {}
-    allc = cases + mcases
-    norm = [norm_impl(r, c['sauce']) for c, r in zip(cases, impl)] + [norm_resave_impl(r, c['sauce']) for c, r in zip(mcases, mimpl)]
+    allc = cases + mcases + fcases
+    norm = [norm_impl(r, c['sauce']) for c, r in zip(cases, impl)] + [norm_resave_impl(r, c['sauce']) for c, r in zip(mcases, mimpl)] + fnorm
     bad = [i for i in range(len(allc)) if norm[i] is None or model[i] is None or digest(norm[i]) != model[i]]
     # the cases whose digests differ are evaluated again in full to locate the first difference
     full = model_eval(ctx, IMPORTS, [exprs[i] for i in bad[:6]], None) if bad else []
     for k, c in enumerate(allc):
         a = norm[k]
         key = '%s %s' % (c['fmt'], c['kind']); dist[key] = dist.get(key, 0) + 1
-        if c['kind'] == 'rt':
-            oc = 'save-refused' if a == [0] else ('save-or-load-panics' if a == [-1] else (a[0] if a and isinstance(a[0], str) else 'saved+loaded'))
-            if a and a[0] == 1: nontrivial.add((c['fmt'], c['pic'].w, c['pic'].h, hash(tuple(c['pic'].cell_list()[:50]))))
+        if c['kind'] in ('rt', 'file'):
+            if c['fmt'] == 'xb': key2 = 'xb %s %s' % (c['kind'], 'compressed' if c['comp'] else 'plain'); dist[key2] = dist.get(key2, 0) + 1
+            oc = 'save-refused' if a == [0] else ('save-or-load-panics' if a == [-1] else (a[0] if a and isinstance(a[0], str) else ('saved+loaded' if c['kind'] == 'rt' else 'file-with-sauce:saved+loaded')))
+            if a and a[0] == 1: nontrivial.add((c['fmt'], c['kind'], c['comp'], c['pic'].w, c['pic'].h, hash(tuple(c['pic'].cell_list()[:50]))))
         else:
-            oc = 'mutated:' + ('load-refused' if a == [0] else ('panics' if a == [-1] else (a[0] if a and isinstance(a[0], str) else 'loaded')))
+            if c.get('directed'): dist['directed resave ' + c['directed']] = dist.get('directed resave ' + c['directed'], 0) + 1
+            oc = 'mutated:' + ('load-refused' if a == [0] else ('panics' if a == [-1] else (a[0] if a and isinstance(a[0], str) else ('loaded+save-refused' if resave_refused(a) else 'loaded'))))
             if a and a[0] == 1: nontrivial.add((c['fmt'], 'm', hash(tuple(c['data'][-80:])), len(c['data'])))
         outcomes[oc] = outcomes.get(oc, 0) + 1
     for j, k in enumerate(bad):
@@ -389,14 +423,92 @@ def correspondence(ctx):
         d = {'case': 'c5%s %s %d %d' % (c['kind'], c['fmt'], c['comp'], c['sauce']), 'fmt': c['fmt'], 'comp': c['comp'], 'sauce': c['sauce'], 'kind': c['kind'],
              'first_difference_at': i, 'impl': None if a is None else a[max(0, i - 2):i + 6], 'model': None if b is None else b[max(0, i - 2):i + 6],
              'lengths': [a and len(a), b and len(b)]}
-        if c['kind'] == 'rt':
+        if c['kind'] in ('rt', 'file'):
             d.update({'picture': c['pic'].brief(), 'fontspec': fontspec(c['pic']), 'pal': c['pic'].pal})
+            if c['kind'] == 'file': d['kind'] = 'rt'      # the search stage re-runs it as a round trip with SAUCE
         else:
             d.update({'file': hexs(c['data'] + (c['tail'] or []))[:200000]})
         dis.append(d)
     return {'cases': len(cases) + len(mcases), 'disagreements': dis, 'distinct_nontrivial': len(nontrivial),
             'distribution': {'kinds': dist, 'outcomes': outcomes, 'model_errors': getattr(ctx, 'model_errors', [])[:2]},
             'samples': [('c5rt %s %d %d %s' % (c['fmt'], c['comp'], c['sauce'], c['pic'].args()))[:160] for c in cases[:3]]}
+
+def resave_refused(a):
+    """normalised resave observation: first load ok, then the writer refused"""
+    try:
+        d, i = parse_load(a, 0)
+        return isinstance(d, dict) and a[i:] == [0]
+    except Exception:
+        return False
+
+def norm_impl_file(r):
+    """harness c5rt result with save_sauce: the COMPLETE file bytes (SAUCE included), then the load observation"""
+    if r is None: return None
+    if r[0] == 'panic': return [-1]
+    if r[0] == 'err' and 'picture-too-large' in str(r[1]): return [-2]
+    if r[0] != 'ok': return [r[0]]
+    v = r[1]
+    if v[0] != 1: return [0]
+    n = v[1]; rest = v[2 + n:]
+    if rest and rest[0] != 1: rest = [0]
+    return [1, n] + v[2:2 + n] + rest
+
+def idf_wide_files(rng, n):
+    """hand-made IDF files whose header width exceeds the loader's 80-column layer (extension: idf_resave_any_width)"""
+    out = []
+    for k in range(n):
+        x1 = rng.choice([0, 0, 1, 5]); w = rng.choice([81, 82, 100, 160, 200, 300]); h = rng.choice([1, 2, 3])
+        x2 = x1 + w - 1
+        d = [4, 0x31, 0x2e, 0x34, x1 & 255, x1 >> 8, 0, 0, x2 & 255, x2 >> 8, (h - 1) & 255, 0]
+        left = w * h
+        while left > 0:
+            if rng.random() < 0.3:
+                cnt = min(left, rng.choice([1, 2, 5, 70, 90, 170]))
+                d += [1, 0, cnt & 255, cnt >> 8, rng.randrange(256), rng.randrange(256)]; left -= cnt
+            else:
+                ch = rng.randrange(256); at = rng.randrange(256)
+                if ch == 1 and at == 0: at = 7
+                d += [ch, at]; left -= 1
+        d += [rng.randrange(256) for _ in range(4096)] + [rng.randrange(64) for _ in range(48)]
+        out.append(d)
+    return out
+
+def xb_synth_512(rng, w, h, fh, with_font, ice, pages):
+    """a hand-made uncompressed XBin file in 512-character mode; pages: 'both' | 'zero' | 'one'"""
+    flags = 16 | (2 if with_font else 0) | (8 if ice else 0)
+    d = list(b'XBIN') + [26, w & 255, w >> 8, h & 255, h >> 8, fh, flags]
+    if with_font: d += [rng.randrange(256) for _ in range(2 * 256 * fh)]
+    for i in range(w * h):
+        a = rng.randrange(256)
+        if pages == 'zero': a &= ~8
+        elif pages == 'one': a |= 8
+        d += [rng.randrange(256), a & 255]
+    return d
+
+def xb512_cases(rng, pool, n):
+    """directed re-save inputs for 512-character files (extension): pages 0 and 1 / only 0 / only 1 in use, with and without
+    the font block (without it and with a page-1 cell: known finding 2, both sides must report the writer's refusal), saved
+    again with either value of SaveOptions.compress; seeds: hand-made files and the two-font files stage C just wrote"""
+    out = []
+    def add(d, what, tail=None):
+        out.append({'kind': 'resave', 'fmt': 'xb', 'data': d, 'tail': tail, 'pic': None, 'comp': rng.randrange(2), 'sauce': 0, 'directed': what})
+    for k in range(n):
+        with_font = k % 3 != 2
+        pages = ['both', 'zero', 'one'][(k // 3) % 3]
+        w, h = rng.choice([(1, 1), (5, 3), (16, 2), (80, 2), (33, 4)]); fh = rng.choice([1, 2, 8, 16])
+        d = xb_synth_512(rng, w, h, fh, with_font, rng.random() < 0.5, pages)
+        if k % 7 == 6 and len(d) > 13: d = d[:-rng.randrange(1, 3)]                  # cut inside the last row
+        add(d, '512 %s pages=%s' % ('font' if with_font else 'no-font', pages))
+    two = [(c, b) for c, b in pool if c['pic'].fonts and len(c['pic'].fonts) == 2 and not c['comp'] and len(b) > 11 and b[10] & 16]
+    for c, b in two[:max(2, n // 3)]:
+        data, tail = split_sauce(b) if c['sauce'] else (b, None)
+        hl = header_len('xb', data)
+        cells = data[hl:]
+        one = data[:hl] + [x | 8 if i & 1 else x for i, x in enumerate(cells)]
+        zero = data[:hl] + [x & ~8 if i & 1 else x for i, x in enumerate(cells)]
+        nofont = data[:10] + [data[10] & ~2] + data[11:11 + (48 if data[10] & 1 else 0)] + cells
+        add(one, '512 writer-file pages=one'); add(zero, '512 writer-file pages=zero'); add(nofont, '512 writer-file no-font')
+    return out
 
 def fontspec(pic):
     if pic.fonts is None: return None
@@ -727,6 +839,9 @@ def search(ctx, broken):
             d2 = mutate(rng, data, header_len(fmt, data)) + (tail or [])
             if len(d2) > 200000: continue
             mcases.append((fmt, comp, sauce, hexs(d2)))
+    # extension: IDF files wider than the loader's layer, XBin 512-character files (pages 0/1, with and without the font block)
+    for d in idf_wide_files(rng, ctx.n(40, 300)): mcases.append(('idf', rng.randrange(2), 0, hexs(d)))
+    for c in xb512_cases(rng, [], ctx.n(60, 400)): mcases.append(('xb', c['comp'], 0, hexs(c['data'])))
     mimpl = ctx.impl(['c5resave %s %d %d %s' % c for c in mcases], per_case_timeout=60, mem_mb=3072)
     judged = 0; skipped = {}
     for c, r in zip(mcases, mimpl):
@@ -760,7 +875,7 @@ def replay(ctx, body):
         f = check_resave(fmt, comp, sauce, inp['file'], r)
         data = [int(inp['file'][i:i + 2], 16) for i in range(0, len(inp['file']), 2)] if inp['file'] != '-' else []
         d, tail = split_sauce(data)
-        if tail is None and (fmt != 'xb' or not (len(d) > 10 and d[10] & 4)):
+        if tail is None:
             m = ctx.model(IMPORTS, ['digest (run_resave %d %s %s [%s] None)' % (FNO[fmt], 'true' if comp else 'false', 'true' if sauce else 'false', '; '.join(map(str, d)))])
             print('model digest :', (m[0] or [])[:12]); print('impl  digest :', (digest(norm_resave_impl(r, sauce)) or [])[:12])
     else:
@@ -787,17 +902,18 @@ TRUSTED = ['Coq 8.16.1 kernel + vm_compute (finite sweeps, model evaluation in s
            'loaded buffer (sizes, layer geometry, line count, modes, palette, fonts, every cell) are compared with the real '
            'Buffer::to_bytes / Buffer::from_bytes on random pictures per the quantifier, on unrepresentable pictures (error branches) and on mutated files',
            'stage C compares through block digests (length + three position-weighted sums per 64 values, computed on both sides) and re-evaluates a differing case in full',
-           'the SAUCE byte layout (property C11): the models take the record as the loader sees it (width, height, ice flag); stage C runs the real record writer and extractor',
+           'the SAUCE byte layout: C11\'s model Model/Sauce.v (write, extract, split), composed with the format models in Model/C05Files.v; stage C compares the complete files Buffer::to_bytes(.., save_sauce) writes '
+           '(the 8 date bytes are taken from the real output) and what Buffer::from_bytes loads from them; chrono\'s date parser is C11\'s oracle',
+           'the XBin compressor / compressed reader: C06\'s Model/XBin.v and C02\'s Model/C02Loaders.v, glued in Model/C05XBinC.v and Proofs/C05XBinCProofs.v (the two reader models are proved to agree); '
+           'whole compressed files are compared byte for byte and cell for cell in stage C',
            'harness/src/c05.rs, the python oracle and the python spec decoders of the search stage']
-UNMODELLED = ['XBin compressed data layout (compress_backtrack / read_data_compressed): property C06; every XBin case here uses SaveOptions.compress = false, '
-              'a compressed file makes the loader model return "unmodelled"',
-              're-save stability is proved for every file the BIN, ADF, IDF and Tundra loaders accept and for XBin files in 256-character mode, under the size side conditions '
-              'stated in the theorems (IDF: within the writer\'s 80 x 200; Tundra: non-negative height, < 2^30 cells, file < 2^29 bytes; BIN/ADF/Tundra: the SAUCE record such a writer makes, or none); '
-              'XBin files in 512-character mode and files outside those side conditions are covered by stages C and S only (two known findings live there)',
+UNMODELLED = ['re-save stability is proved for every file the five loaders accept, with these remaining side conditions: BIN/ADF: the SAUCE record such a writer makes, or none (a .bin file carrying a '
+              'non-BIN record of odd or > 510 width loads with a width BIN cannot store); IDF: at most 200 rows (the writer refuses more: known finding 1, proved to be the exact exception); '
+              'XBin: none except known finding 2 (proved to be the exact exception); Tundra: non-negative height, < 2^30 cells, file < 2^29 bytes (u32 colour indices, bit 31 is special in Palette::get_rgb)',
               'cells whose colour is TextAttribute::TRANSPARENT_COLOR (1 << 31) and buffers with more than one layer, an alpha-channel layer or terminal buffers (Buffer::get_char takes other paths)',
               'fonts that are not embedded in the file (BIN, Tundra: the SAUCE font name), BitFont names other than "is it the default font", guess_font_name beyond that (CRC-32 equality is modelled as glyph equality)',
               'ColorOptimizer (SaveOptions.lossles_output = false): property C12; every case here saves with lossles_output = true',
-              'TerminalState resizing inside set_sauce, file names, SAUCE title/author/comments (C11)']
+              'the extension dispatch of Buffer::from_bytes is C02\'s; TerminalState resizing inside set_sauce, file names, the SAUCE title/author/comments a buffer carries (stage C buffers have none; the theorems hold for any) are C11\'s']
 ASSUMPTIONS = ['Rust u8/u16/i32 operators behave as written into the model: `as u8` is mod 256, `r << 2 | r >> 4` on u8 truncates, i32 `/` truncates, `>>` on i32 is arithmetic',
                'the loop transcriptions: `loop { for _ in 0..width { … } }`, `while o < len` and `while x < width { …; x += rle_count }` are written as structural / fuelled recursion over the byte or cell list (stated in each Model file header); '
                'fuel is shown sufficient inside the round-trip proofs and is never exhausted in stage C',
@@ -808,18 +924,27 @@ RULE = ('random pictures per format from the quantifier: BIN even widths 2..510 
         'cell styles: random bytes, long runs, control-range characters 0..6 and the (1, attribute 0) pattern, printable text, bold folded into high intensity; every tenth picture is spoiled '
         '(character > 255, wrong mode, palette size, extra font page, colours out of range, other width) to exercise the writers\' error branches; mutated files: truncation, extension, byte flips in the '
         'cell area and in the header, single-byte deletion; stage S additionally runs the sizes at the ends of the quantifier (1x1, 80x1, 80x10, 4096 wide, 200 high, 510 / 1000 wide) with cells computed by a '
-        'hash on both sides. A case is non-trivial when the writer produced a file (or the loader accepted the mutated file); distinct = distinct (format, size, options, content).')
+        'hash on both sides. Extension: XBin pictures are saved with either value of SaveOptions.compress (stage C: whole compressed files byte for byte); mutated files include compressed ones; directed re-save inputs: '
+        'XBin files in 512-character mode using pages {0,1} / only 0 / only 1, with and without the font block (hand-made and derived from the writer\'s own files), IDF files 81..300 columns wide with repeat headers crossing column 80; '
+        'files with their SAUCE bytes for all five formats. A case is non-trivial when the writer produced a file (or the loader accepted the mutated file); distinct = distinct (format, size, options, content).')
 LEVEL_TEXT = ('Machine-checked proof (Coq, closed under the global context) for all five formats that save-then-load reproduces the picture, for pictures of EVERY size the format admits and every cell content: '
-              'BIN (even width 2..510 with its SAUCE record, any height, all modes), ADF (80 columns, any number of rows incl. none, six-bit palette through the 64-register EGA block, 8x16 font), '
-              'XBin file level with uncompressed data (width 1..4096, height 0..65535, palette block, one font or two fonts of height 1..32 with attribute bit 3 as font page, blink or ice), '
-              'IDF both plain and run-length compressed (1..80 x 1..200), Tundra (width 1..1000 with SAUCE, arbitrary 24-bit colours compared as displayed). '
+              'BIN (even width 2..510, any height, all modes) and Tundra (width 1..1000, arbitrary 24-bit colours compared as displayed) as the BYTES Buffer::to_bytes(.., save_sauce) writes and Buffer::from_bytes reads '
+              '(composition with C11: the width travels through the SAUCE record, the record is cut off exactly), ADF (80 columns, any number of rows incl. none, six-bit palette through the 64-register EGA block, 8x16 font), '
+              'XBin whole files with uncompressed AND compressed data (width 1..4096, height 0..65535, palette block, one or two fonts of height 1..32 with attribute bit 3 as font page, blink or ice; with or without SAUCE bytes), '
+              'IDF plain and run-length compressed (1..200 rows, every header width 1..65536: what lies right of the loader\'s 80-column layer is not stored and comes back unchanged). '
+              'XBin compression is transparent on FILES (composition with C06): for every picture whose size, palette and fonts the format admits - any cells, any one or two font pages - the compressed file exists iff the uncompressed one does, '
+              'both load to one and the same buffer (font page per cell included), and the compressed file is header + blocks + exactly one stream the specification decoder accepts with nothing behind it. '
               '`representable_*` spell out what each format can carry; the conclusion is equality of width, height, mode class, every character, displayed colours, blink, font page, embedded palette and glyph tables. '
-              'Re-save stability (load ANY byte string the loader accepts, save, load again: same picture) is proved for all five formats: BIN and ADF without size conditions, XBin for 256-character uncompressed files, '
-              'IDF for pictures within the writer\'s 80 x 200 limits, Tundra (position jumps included) for pictures of non-negative height below 2^30 cells; 512-character XBin files are checked by differential and oracle runs on mutated files only. '
-              'The models are compared with the real Buffer::to_bytes / from_bytes byte for byte and cell for cell on every run (incl. error and panic branches); constants and tables are regenerated from the source. '
-              'The theorems are about the code after eight small fix commits (XBin/ADF heights below 25, three Tundra colour defects, IDF double repeat header, empty font-page list); '
-              'two known findings remain (IDF and XBin files that load but cannot be saved again). XBin compression is outside (C06).')
-LEVEL_NOTE = ('Trusted: Coq kernel + vm_compute; the python translator for constants/tables; the hand-written writer/loader models, tied by differential execution against the real code on every run '
-              '(bytes and complete buffers, via block digests); the SAUCE record is taken as its decoded fields (C11 proves the bytes); no axioms.')
+              'Re-save stability (load ANY byte string the loader accepts, save, load again: same picture) is proved for all five formats: BIN and ADF without size conditions, '
+              'XBin for EVERY accepted file (256- and 512-character mode, compressed or not, saved with either writer; a file whose cells all sit on page 1 comes back as a one-font file with equal glyphs), '
+              'IDF for every accepted file of at most 200 rows, Tundra (position jumps included, any SAUCE record) for pictures of non-negative height below 2^30 cells. '
+              'The two known findings are proved to be the EXACT exceptions: an accepted IDF file cannot be saved again iff it has more than 200 rows; an accepted XBin file iff it loads with a page-1 cell and no second font. '
+              'The models are compared with the real Buffer::to_bytes / from_bytes byte for byte and cell for cell on every run (incl. error and panic branches, compressed whole files, files with SAUCE bytes, 512-character re-saves); '
+              'constants and tables are regenerated from the source. The theorems are about the code after eight small fix commits (XBin/ADF heights below 25, three Tundra colour defects, IDF double repeat header, empty font-page list).')
+LEVEL_NOTE = ('Trusted: Coq kernel + vm_compute; the python translator for constants/tables; the hand-written writer/loader models (C05 file level, C06 compressor, C02 fixed loaders, C11 SAUCE record), tied by differential '
+              'execution against the real code on every run (bytes and complete buffers, via block digests); chrono\'s date parser as an oracle; no axioms. Still by search only: BIN/ADF files with a foreign SAUCE record, '
+              'Tundra pictures of 2^30 cells or more.')
 TECHNIQUE = ('Coq proof by induction over rows, cells, run-length tokens and colour-change streams on a ragged-line layer model with get-after-set laws; loader/writer state invariants '
-             '(palette extension monotonicity for Tundra); finite vm_compute sweeps for attribute bytes, six-bit channels and flag bits; translator tie for constants, differential tie for function bodies')
+             '(palette extension monotonicity for Tundra; a layer invariant preserved by every set_char of the compressed and uncompressed XBin readers on arbitrary bytes); composition lemmas between the models of '
+             'four properties (C05 file level, C06 compressor and trace readers, C02 layer readers, C11 SAUCE split): trace-to-layer refinement, codec equality on all cells, font-page renumbering; '
+             'finite vm_compute sweeps for attribute bytes, six-bit channels and flag bits; translator tie for constants, differential tie for function bodies')
